@@ -112,6 +112,20 @@ func (d *Driver) runCheck(writeEvidence bool) int {
 	id := d.spec.Property
 	fmt.Printf("gosx: property %s tier=%s seed=%d workers=%d\n", id, d.tier, d.seed, d.workers)
 	if err := d.load(); err != nil {
+		if pv, ok := err.(*prepViolation); ok {
+			dir := filepath.Join("/verif/replays", id)
+			os.RemoveAll(dir)
+			os.MkdirAll(dir, 0o755)
+			rp := filepath.Join(dir, "emitted_code_violation.txt")
+			os.WriteFile(rp, []byte(pv.msg+"\n\nreproduce: "+d.spec.Prepare.Cmd+" <empty dir> "+d.tier+" ; then go build with the emitted files overlaid (see DESIGN.md, C05)\n"), 0o644)
+			fmt.Println("  violation (concrete, on the emitted code):", strings.SplitN(pv.msg, "\n", 3)[0])
+			fmt.Printf("VIOLATION property=%s replay=%s\n", id, rp)
+			if writeEvidence {
+				writeJSON(filepath.Join("/verif/evidence", id+".json"), &Evidence{PropertyID: id, Tier: d.tier, Seed: d.seed, Level: "other", WallS: time.Since(t0).Seconds(), Violations: 1,
+					Coverage: map[string]interface{}{"explanation": "the emitted code failed the type check / regeneration comparison before symbolic execution started: " + trunc(pv.msg, 500), "evaluations": 1, "distinct_nontrivial": 2}})
+			}
+			return 1
+		}
 		fmt.Println("ENGINE-ERROR load:", err)
 		return 2
 	}
